@@ -149,10 +149,21 @@ fn diff_fails(name: &str, keys: Vec<(String, String)>, what: &str) -> Vec<Fail> 
 
 /// All oracle failures of one case are collected; known ones are counted, of the unknown
 /// ones one is chosen by a draw so that a type with an always-firing finding does not mask
-/// its other oracles.
+/// its other oracles (over many cases every key gets its turn).
+fn dev_skip(key: &str) -> bool {
+    // development aid only: VERIF_C06_SKIP=key1,prefix2* hides these keys so that the oracles
+    // behind an always-firing finding can be looked at before it is listed in known_findings.json
+    static SKIP: std::sync::OnceLock<Vec<String>> = std::sync::OnceLock::new();
+    let pats = SKIP.get_or_init(|| std::env::var("VERIF_C06_SKIP").map(|v| v.split(',').map(|s| s.to_string()).collect()).unwrap_or_default());
+    pats.iter().any(|p| vkit::runner::key_matches(p, key))
+}
+
 fn finish(src: &mut Src, ctx: &mut Ctx, fails: Vec<Fail>) -> R {
     let mut unknown: Vec<Fail> = vec![];
     for f in fails {
+        if dev_skip(&f.key) {
+            continue;
+        }
         if ctx.is_known(&f.key) {
             ctx.report(f)?;
         } else if !unknown.iter().any(|u| u.key == f.key) {
@@ -162,7 +173,22 @@ fn finish(src: &mut Src, ctx: &mut Ctx, fails: Vec<Fail>) -> R {
     if unknown.is_empty() {
         return Ok(());
     }
-    let i = if unknown.len() > 1 { src.draw(unknown.len() as u64 - 1) as usize } else { 0 };
+    // value-based choice (not index-based) so that a recorded tape keeps selecting the same key
+    // when other findings of the same case get fixed or listed as known
+    let mut i = 0;
+    if unknown.len() > 1 {
+        let v = src.u64();
+        let h = |k: &str| {
+            let mut d = vkit::Digest::new();
+            d.str(k);
+            d.finish() ^ v
+        };
+        for j in 1..unknown.len() {
+            if h(&unknown[j].key) < h(&unknown[i].key) {
+                i = j;
+            }
+        }
+    }
     Err(unknown.swap_remove(i))
 }
 
@@ -1871,42 +1897,583 @@ fn dns_record(src: &mut Src, ctx: &mut Ctx) -> R {
     Ok(())
 }
 
+// ------------------------------------------------------------------ ieee 802.15.4
+
+const IEEE_FT: [Ieee802154FrameType; 4] =
+    [Ieee802154FrameType::Data, Ieee802154FrameType::Beacon, Ieee802154FrameType::MacCommand, Ieee802154FrameType::Multipurpose];
+const IEEE_FV: [Ieee802154FrameVersion; 3] =
+    [Ieee802154FrameVersion::Ieee802154_2003, Ieee802154FrameVersion::Ieee802154_2006, Ieee802154FrameVersion::Ieee802154];
+
+/// The combinations the emitter supports, from ieee802154.rs: emit lays the addressing fields
+/// out as [dst PAN][dst addr][src PAN unless pan_id_compression][src addr] (set_dst_pan_id
+/// :751-758, set_dst_addr :762-780 always behind a 2-octet PAN, set_src_pan_id/_addr :794-835,
+/// buffer_len :956-969). This coincides with the parser's table (:444-482) when
+///  * the frame type has addressing fields and a sequence number in every version (Data,
+///    Beacon, MacCommand, Multipurpose, :402-429) and sequence_number is Some,
+///  * the version is 2003, 2006 or 2015 (Unknown versions parse to no addresses),
+///  * dst_pan_id is Some and both addresses are Short or Extended,
+///  * src_pan_id is Some exactly when pan_id_compression is off (emit ignores it otherwise,
+///    :991),
+///  * for version 2015 not both addresses Extended (there the table drops a PAN id, :469-470).
+/// security_enabled needs an auxiliary security header behind the MAC header, which is
+/// payload from the repr's point of view; the harness appends >= 14 payload octets then.
+fn ieee_ok(r: &Ieee802154Repr) -> bool {
+    let sx = |a: &Option<Ieee802154Address>| matches!(a, Some(Ieee802154Address::Short(_)) | Some(Ieee802154Address::Extended(_)));
+    IEEE_FT.contains(&r.frame_type)
+        && r.sequence_number.is_some()
+        && IEEE_FV.contains(&r.frame_version)
+        && r.dst_pan_id.is_some()
+        && sx(&r.dst_addr)
+        && sx(&r.src_addr)
+        && r.pan_id_compression == r.src_pan_id.is_none()
+        && !(r.frame_version == Ieee802154FrameVersion::Ieee802154
+            && matches!(r.dst_addr, Some(Ieee802154Address::Extended(_)))
+            && matches!(r.src_addr, Some(Ieee802154Address::Extended(_))))
+}
+
+fn drive_ieee(src: &mut Src, ctx: &mut Ctx, r: &Ieee802154Repr, plen: usize) -> R {
+    const K_OR: &str = "ieee802154:buffer-dependent:fc-flag-setters-only-set";
+    const K_RES: &str = "ieee802154:buffer-dependent:fc-bits-7-9-unwritten";
+    drive!(src, ctx, "ieee802154", r;
+        len(r) { r.buffer_len() + if r.security_enabled { plen.max(14) } else { plen } }
+        emit(r, buf) {
+            r.emit(&mut Ieee802154Frame::new_unchecked(&mut buf[..]));
+            let h = r.buffer_len();
+            pat(&mut buf[h..]);
+        }
+        parse(buf, lenient => p) {
+            let f = Ieee802154Frame::new_unchecked(buf);
+            let p = Ieee802154Repr::parse(&f).ok();
+        }
+        ok(r) { ieee_ok(r) }
+        diffkey(_r, off, mask, all) {
+            // the PAN-id-compression bit cannot be cleared by its setter; when it sticks, emit
+            // (which reads it back, ieee802154.rs:816) also misplaces the source address
+            let pic_stuck = all.iter().any(|&(o, m)| o == 0 && m & 0x40 != 0);
+            let mut k = String::new();
+            if off == 0 {
+                if mask & 0x78 != 0 { k.push_str(K_OR); k.push('|'); }
+                if mask & 0x80 != 0 { k.push_str(K_RES); k.push('|'); }
+                if mask & 0x07 != 0 { k.push_str("ieee802154:buffer-dependent:other|"); }
+            } else if off == 1 {
+                if mask & 0x03 != 0 { k.push_str(K_RES); k.push('|'); }
+                if mask & 0xfc != 0 { k.push_str("ieee802154:buffer-dependent:other|"); }
+            } else if off >= 3 && pic_stuck {
+                k.push_str(K_OR);
+            } else {
+                k.push_str("ieee802154:buffer-dependent:other");
+            }
+            k
+        }
+        rtkey(_r) { "ieee802154:roundtrip".to_string() }
+    );
+    Ok(())
+}
+
+fn g_ieee_addr(src: &mut Src, ext: bool) -> Ieee802154Address {
+    if ext {
+        Ieee802154Address::Extended(arr::<8>(src))
+    } else if src.chance(1, 6) {
+        Ieee802154Address::BROADCAST
+    } else {
+        Ieee802154Address::Short(arr::<2>(src))
+    }
+}
+
+fn ieee802154(src: &mut Src, ctx: &mut Ctx) -> R {
+    let frame_version = IEEE_FV[src.draw(2) as usize];
+    let dst_ext = src.bool();
+    let mut src_ext = src.bool();
+    if frame_version == Ieee802154FrameVersion::Ieee802154 && dst_ext && src_ext {
+        src_ext = false;
+    }
+    let pic = src.bool();
+    let r = Ieee802154Repr {
+        frame_type: IEEE_FT[src.weighted(&[5, 1, 1, 1])],
+        security_enabled: src.chance(1, 4),
+        frame_pending: src.bool(),
+        ack_request: src.bool(),
+        sequence_number: Some(src.u8()),
+        pan_id_compression: pic,
+        frame_version,
+        dst_pan_id: Some(Ieee802154Pan(src.special(&[0, 0xffff, 0xabcd], 0, 65535) as u16)),
+        dst_addr: Some(g_ieee_addr(src, dst_ext)),
+        src_pan_id: if pic { None } else { Some(Ieee802154Pan(src.special(&[0, 0xffff, 0xabcd], 0, 65535) as u16)) },
+        src_addr: Some(g_ieee_addr(src, src_ext)),
+    };
+    let plen = src.usize(0, 40);
+    ctx.nontrivial = true;
+    if r.security_enabled {
+        ctx.label("ieee802154:security-enabled");
+    }
+    drive_ieee(src, ctx, &r, plen)
+}
+
+/// replay form of the exhaustive sweep over the flag and addressing-mode space:
+/// [frame type 0..3, sec|pending|ack bits 0..7, pan-id compression, version 0..2, dst extended, src extended]
+fn ieee_small(src: &mut Src, ctx: &mut Ctx) -> R {
+    let ft = IEEE_FT[src.draw(3) as usize];
+    let flags = src.draw(7);
+    let pic = src.bool();
+    let fv = IEEE_FV[src.draw(2) as usize];
+    let dst_ext = src.bool();
+    let src_ext = src.bool();
+    let a = |ext: bool, tag: u8| if ext { Ieee802154Address::Extended([tag, 2, 3, 4, 5, 6, 7, 8]) } else { Ieee802154Address::Short([tag, 0x42]) };
+    let r = Ieee802154Repr {
+        frame_type: ft,
+        security_enabled: flags & 1 != 0,
+        frame_pending: flags & 2 != 0,
+        ack_request: flags & 4 != 0,
+        sequence_number: Some(0x5a),
+        pan_id_compression: pic,
+        frame_version: fv,
+        dst_pan_id: Some(Ieee802154Pan(0xabcd)),
+        dst_addr: Some(a(dst_ext, 0xd1)),
+        src_pan_id: if pic { None } else { Some(Ieee802154Pan(0x1234)) },
+        src_addr: Some(a(src_ext, 0x51)),
+    };
+    if !ieee_ok(&r) {
+        ctx.label("ieee_small:skipped-outside-proviso");
+        return Ok(());
+    }
+    ctx.nontrivial = true;
+    drive_ieee(src, ctx, &r, 4)
+}
+
+// ------------------------------------------------------------------ 6LoWPAN IPHC
+
+fn eui64(ext: [u8; 8]) -> [u8; 8] {
+    let mut b = ext;
+    b[0] ^= 0x02;
+    b
+}
+
+fn g_ll(src: &mut Src) -> Option<Ieee802154Address> {
+    match src.weighted(&[2, 3, 3, 1]) {
+        0 => None,
+        1 => Some(Ieee802154Address::Short(arr::<2>(src))),
+        2 => Some(Ieee802154Address::Extended(arr::<8>(src))),
+        _ => Some(Ieee802154Address::Absent),
+    }
+}
+
+fn g_iphc_unicast(src: &mut Src, ll: Option<Ieee802154Address>) -> Ipv6Address {
+    let mut a = [0u8; 16];
+    a[0] = 0xfe;
+    a[1] = 0x80;
+    match src.weighted(&[2, 2, 3, 2, 2, 1]) {
+        0 => {
+            let mut g = arr::<16>(src);
+            g[0] = 0x20;
+            return Ipv6Address::from(g);
+        }
+        1 => a[8..].copy_from_slice(&arr::<8>(src)),
+        2 => match ll {
+            // interface identifier derived from the link-layer address: can be elided
+            Some(Ieee802154Address::Short(s)) => {
+                a[11] = 0xff;
+                a[12] = 0xfe;
+                a[14] = s[0];
+                a[15] = s[1];
+            }
+            Some(Ieee802154Address::Extended(e)) => a[8..].copy_from_slice(&eui64(e)),
+            _ => a[8..].copy_from_slice(&arr::<8>(src)),
+        },
+        3 => {
+            a[11] = 0xff;
+            a[12] = 0xfe;
+            a[14] = src.u8();
+            a[15] = src.u8();
+        }
+        4 => return Ipv6Address::from(arr::<16>(src)),
+        _ => return Ipv6Address::UNSPECIFIED,
+    }
+    Ipv6Address::from(a)
+}
+
+fn mcast_compressible(d: &[u8; 16]) -> bool {
+    (d[1] == 0x02 && d[2..15] == [0; 13]) || d[2..13] == [0; 11] || d[2..11] == [0; 9]
+}
+
+/// Provisos (iphc.rs): ecn, dscp and flow_label are None - "we don't set anything from the
+/// traffic flow" (:857-858, TF is always 0b11) while buffer_len() would count them; emit never
+/// uses address contexts (stateless compression only, :527-528 and :593), so parsing needs none.
+fn iphc(src: &mut Src, ctx: &mut Ctx) -> R {
+    let lls = g_ll(src);
+    let lld = g_ll(src);
+    let src_addr = g_iphc_unicast(src, lls);
+    let dst_addr = if src.chance(2, 5) { g_v6_mcast(src) } else { g_iphc_unicast(src, lld) };
+    let r = SixlowpanIphcRepr {
+        src_addr,
+        ll_src_addr: lls,
+        dst_addr,
+        ll_dst_addr: lld,
+        next_header: if src.chance(1, 3) { SixlowpanNextHeader::Compressed } else { SixlowpanNextHeader::Uncompressed(g_proto(src)) },
+        hop_limit: src.special(&[1, 64, 255, 0, 2, 63, 65, 254], 0, 255) as u8,
+        ecn: None,
+        dscp: None,
+        flow_label: None,
+    };
+    let plen = src.usize(0, 8);
+    ctx.nontrivial = true;
+    let hl = r.buffer_len();
+    ctx.label(match hl {
+        2..=3 => "iphc:header-2-3",
+        4..=12 => "iphc:header-4-12",
+        13..=21 => "iphc:header-13-21",
+        _ => "iphc:header-22-plus",
+    });
+    if dst_addr.is_multicast() {
+        ctx.label(if mcast_compressible(&dst_addr.octets()) { "iphc:dst-multicast-compressed" } else { "iphc:dst-multicast-inline" });
+    }
+    drive!(src, ctx, "iphc", &r;
+        len(r) { r.buffer_len() + plen }
+        emit(r, buf) {
+            r.emit(&mut SixlowpanIphcPacket::new_unchecked(&mut buf[..]));
+            let h = r.buffer_len();
+            pat(&mut buf[h..]);
+        }
+        parse(buf, lenient => p) {
+            let pk = SixlowpanIphcPacket::new_unchecked(buf);
+            let p = SixlowpanIphcRepr::parse(&pk, lls, lld, &[]).ok();
+        }
+        ok(r) { r.ecn.is_none() && r.dscp.is_none() && r.flow_label.is_none() }
+        diffkey(_r, _off, _mask, _all) { "iphc:buffer-dependent".to_string() }
+        rtkey(r) {
+            if r.dst_addr.is_multicast() && !mcast_compressible(&r.dst_addr.octets()) {
+                "iphc:roundtrip:multicast-dst-full-inline".to_string()
+            } else {
+                "iphc:roundtrip".to_string()
+            }
+        }
+    );
+    Ok(())
+}
+
+// ------------------------------------------------------------------ 6LoWPAN NHC
+
+/// ExtHeaderRepr: no proviso; the `length` octets of payload follow the header.
+fn ext_nhc(src: &mut Src, ctx: &mut Ctx) -> R {
+    const IDS: [SixlowpanExtHeaderId; 7] = [
+        SixlowpanExtHeaderId::HopByHopHeader,
+        SixlowpanExtHeaderId::RoutingHeader,
+        SixlowpanExtHeaderId::FragmentHeader,
+        SixlowpanExtHeaderId::DestinationOptionsHeader,
+        SixlowpanExtHeaderId::MobilityHeader,
+        SixlowpanExtHeaderId::Header,
+        SixlowpanExtHeaderId::Reserved,
+    ];
+    let r = SixlowpanExtHeaderRepr {
+        ext_header_id: IDS[src.draw(6) as usize],
+        next_header: if src.bool() { SixlowpanNextHeader::Compressed } else { SixlowpanNextHeader::Uncompressed(g_proto(src)) },
+        length: src.special(&[0, 1, 6, 255], 0, 255) as u8,
+    };
+    ctx.nontrivial = r.length > 0 || r.next_header != SixlowpanNextHeader::Compressed;
+    drive!(src, ctx, "ext_nhc", &r;
+        len(r) { r.buffer_len() + r.length as usize }
+        emit(r, buf) {
+            r.emit(&mut SixlowpanExtHeaderPacket::new_unchecked(&mut buf[..]));
+            let h = r.buffer_len();
+            pat(&mut buf[h..]);
+        }
+        parse(buf, lenient => p) {
+            let pk = SixlowpanExtHeaderPacket::new_unchecked(buf);
+            let p = SixlowpanExtHeaderRepr::parse(&pk).ok();
+        }
+        ok(_r) { true }
+        diffkey(_r, _off, _mask, _all) { "ext_nhc:buffer-dependent".to_string() }
+        rtkey(_r) { "ext_nhc:roundtrip".to_string() }
+    );
+    Ok(())
+}
+
+fn is_4bit(p: u16) -> bool {
+    (0xf0b0..=0xf0bf).contains(&p)
+}
+fn is_8bit(p: u16) -> bool {
+    (0xf000..=0xf0ff).contains(&p)
+}
+
+/// UdpNhcRepr: no proviso on the ports (every pair has an encoding, nhc.rs:641-673).
+/// header_len() always reserves the two checksum octets (:735).
+fn udp_nhc_core(src: &mut Src, ctx: &mut Ctx, sp: u16, dp: u16) -> R {
+    let r = SixlowpanUdpNhcRepr(UdpRepr { src_port: sp, dst_port: dp });
+    let sa = g_v6(src);
+    let da = g_v6(src);
+    let n = src.usize(0, 64);
+    let payload = g_data(src, n);
+    let (caps, tx) = g_caps(src);
+    let psz = if is_4bit(sp) && is_4bit(dp) {
+        ctx.label("udp_nhc:ports-4bit");
+        1
+    } else if is_8bit(sp) {
+        ctx.label("udp_nhc:src-port-8bit");
+        3
+    } else if is_8bit(dp) {
+        ctx.label("udp_nhc:dst-port-8bit");
+        3
+    } else {
+        ctx.label("udp_nhc:ports-inline");
+        4
+    };
+    if !tx {
+        ctx.label("udp_nhc:checksum-offloaded");
+    }
+    ctx.nontrivial = psz < 4 || n > 0;
+    let bytes = drive!(src, ctx, "udp_nhc", &r;
+        len(r) { r.header_len() + n }
+        emit(r, buf) {
+            r.emit(&mut SixlowpanUdpNhcPacket::new_unchecked(&mut buf[..]), &sa, &da, n, |b| b.copy_from_slice(&payload), &caps);
+        }
+        parse(buf, lenient => p) {
+            let pk = SixlowpanUdpNhcPacket::new_unchecked(buf);
+            let c = lenient_caps(lenient, &caps);
+            let p = SixlowpanUdpNhcRepr::parse(&pk, &sa, &da, &c).ok();
+        }
+        ok(_r) { true }
+        diffkey(_r, off, mask, _all) {
+            let mut k = String::new();
+            if !tx && off == 0 && mask & 0x04 != 0 {
+                k.push_str("udp_nhc:buffer-dependent:checksum-field-unwritten-when-tx-offloaded|");
+                if mask & !0x04 != 0 { k.push_str("udp_nhc:buffer-dependent:other"); }
+            } else if !tx && (1 + psz..1 + psz + 2).contains(&off) {
+                k.push_str("udp_nhc:buffer-dependent:checksum-field-unwritten-when-tx-offloaded");
+            } else if tx && (1 + psz..1 + psz + 2).contains(&off) {
+                k.push_str("@checksum");
+            } else {
+                k.push_str("udp_nhc:buffer-dependent:other");
+            }
+            k
+        }
+        rtkey(r) {
+            if is_4bit(r.src_port) && is_4bit(r.dst_port) {
+                "udp_nhc:roundtrip:4bit-ports".to_string()
+            } else if !is_8bit(r.src_port) && is_8bit(r.dst_port) {
+                // P=01: 16-bit source port then 8-bit destination port
+                "udp_nhc:roundtrip:dst-8bit-port-read-at-wrong-offset".to_string()
+            } else {
+                "udp_nhc:roundtrip".to_string()
+            }
+        }
+    );
+    // the repr holds only the ports: check the payload too (skipped for the 4-bit form, whose
+    // failure is already reported above)
+    if !(is_4bit(sp) && is_4bit(dp)) && !(!is_8bit(sp) && is_8bit(dp)) {
+        let pk = SixlowpanUdpNhcPacket::new_unchecked(&bytes[..]);
+        vensure!(pk.check_len().is_ok() && pk.payload() == &payload[..], "udp_nhc:payload", "payload of {} bytes not reproduced", n);
+    }
+    Ok(())
+}
+
+fn udp_nhc(src: &mut Src, ctx: &mut Ctx) -> R {
+    let g4 = |src: &mut Src| 0xf0b0 + src.draw(15) as u16;
+    let g8 = |src: &mut Src| 0xf000 + src.draw(255) as u16;
+    let gany = |src: &mut Src| src.special(&[0, 1, 53, 0xefff, 0xf000, 0xf0af, 0xf0b0, 0xf0bf, 0xf0c0, 0xf0ff, 0xf100, 0xffff], 0, 65535) as u16;
+    let (sp, dp) = match src.weighted(&[2, 2, 2, 2]) {
+        0 => (gany(src), gany(src)),
+        1 => (g4(src), g4(src)),
+        2 => (g8(src), gany(src)),
+        _ => (gany(src), g8(src)),
+    };
+    udp_nhc_core(src, ctx, sp, dp)
+}
+
+/// replay form of the exhaustive sweep over the compressible port classes: [src port, dst port]
+fn udp_nhc_ports(src: &mut Src, ctx: &mut Ctx) -> R {
+    let sp = src.u16();
+    let dp = src.u16();
+    udp_nhc_core(src, ctx, sp, dp)
+}
+
+/// 6LoWPAN fragment headers. Proviso: datagram_size is an 11-bit field (`(v & !0x7ff) | size`,
+/// frag.rs:181-187).
+fn sixlowpan_frag(src: &mut Src, ctx: &mut Ctx) -> R {
+    let size = src.biased(0, 2047) as u16;
+    let tag = src.special(&[0, 1, 0xffff], 0, 65535) as u16;
+    let r = if src.bool() {
+        SixlowpanFragRepr::Fragment { size, tag, offset: src.special(&[0, 1, 255], 0, 255) as u8 }
+    } else {
+        SixlowpanFragRepr::FirstFragment { size, tag }
+    };
+    let plen = src.usize(0, 8);
+    ctx.nontrivial = true;
+    drive!(src, ctx, "sixlowpan_frag", &r;
+        len(r) { r.buffer_len() + plen }
+        emit(r, buf) {
+            r.emit(&mut SixlowpanFragPacket::new_unchecked(&mut buf[..]));
+            let h = r.buffer_len();
+            pat(&mut buf[h..]);
+        }
+        parse(buf, lenient => p) {
+            let pk = SixlowpanFragPacket::new_unchecked(buf);
+            let p = SixlowpanFragRepr::parse(&pk).ok();
+        }
+        ok(r) {
+            match r {
+                SixlowpanFragRepr::FirstFragment { size, .. } | SixlowpanFragRepr::Fragment { size, .. } => *size <= 2047,
+            }
+        }
+        diffkey(_r, _off, _mask, _all) { "sixlowpan_frag:buffer-dependent".to_string() }
+        rtkey(_r) { "sixlowpan_frag:roundtrip".to_string() }
+    );
+    Ok(())
+}
+
+// ------------------------------------------------------------------ exhaustive phases
+
+fn run_enum(env: &RunEnv, name: &str, part: &'static str, case: CaseFn, tapes: Vec<Vec<u64>>) -> PhaseResult {
+    vkit::runner::set_quiet(true);
+    let mut pr = PhaseResult { name: name.to_string(), exhaustive: true, ..Default::default() };
+    let mut skipped = 0u64;
+    for tape in tapes {
+        let mut ctx = Ctx::new(false, env.known_open.clone(), false);
+        let mut s = Src::replay(&tape);
+        let res = guarded(|| case(&mut s, &mut ctx));
+        if ctx.labels.iter().any(|l| l.ends_with(":skipped-outside-proviso")) {
+            skipped += 1;
+            continue;
+        }
+        pr.evaluations += 1;
+        if ctx.nontrivial {
+            pr.nontrivial += 1;
+        }
+        let fail = match res {
+            Ok(Ok(())) => None,
+            Ok(Err(f)) => Some(f),
+            Err(p) => {
+                if panic_in_smoltcp(&p) {
+                    Some(Fail::new(panic_key(&p), format!("panic at {}:{}: {}", p.file, p.line, p.msg)))
+                } else {
+                    panic!("harness bug in phase {}: {}:{}: {}", name, p.file, p.line, p.msg)
+                }
+            }
+        };
+        if let Some(f) = fail {
+            if !pr.failures.iter().any(|x| x.2.key == f.key) && pr.failures.len() < 8 {
+                pr.failures.push((part.to_string(), tape.clone(), f));
+            }
+        }
+    }
+    pr.extra = json!({ "skipped_outside_proviso": skipped });
+    pr
+}
+
+fn phase_udp_nhc_ports(env: &RunEnv) -> PhaseResult {
+    let others: [u64; 8] = [0, 1, 53, 0xf000, 0xf0af, 0xf0b0, 0xf0c0, 0xffff];
+    let mut tapes = vec![];
+    for s in 0xf0b0..=0xf0bfu64 {
+        for d in 0xf0b0..=0xf0bfu64 {
+            tapes.push(vec![s, d]);
+        }
+    }
+    for c in 0xf000..=0xf0ffu64 {
+        for o in others {
+            tapes.push(vec![c, o]);
+            tapes.push(vec![o, c]);
+        }
+    }
+    let mut pr = run_enum(env, "udp-nhc: all 256 4-bit port pairs, every 8-bit-compressible port against 8 partner ports, both directions", "udp_nhc_ports", udp_nhc_ports, tapes);
+    pr.samples.push(json!({"phase": "udp-nhc ports", "example": "[0xf0b1, 0xf0b2] -> 4-bit form"}));
+    pr
+}
+
+fn phase_tcp_small(env: &RunEnv) -> PhaseResult {
+    let mut tapes = vec![];
+    for c in 0..5u64 {
+        for bits in 0..32u64 {
+            for ns in 0..4u64 {
+                tapes.push(vec![c, bits & 1, (bits >> 1) & 1, (bits >> 2) & 1, (bits >> 3) & 1, (bits >> 4) & 1, ns]);
+            }
+        }
+    }
+    run_enum(env, "tcp: all control values x presence of ack/mss/ws/sack-permitted/timestamp x 0..3 sack ranges (inside the proviso)", "tcp_small", tcp_small, tapes)
+}
+
+fn phase_igmp_codes(env: &RunEnv) -> PhaseResult {
+    let mut tapes = vec![];
+    for c in 0..256u64 {
+        tapes.push(vec![c, 0]);
+        tapes.push(vec![c, 1]);
+    }
+    run_enum(env, "igmp: all 256 Max Resp Codes of a membership query, parse -> emit -> parse", "igmp_code", igmp_code, tapes)
+}
+
+fn phase_ieee_small(env: &RunEnv) -> PhaseResult {
+    let mut tapes = vec![];
+    for ft in 0..4u64 {
+        for fl in 0..8u64 {
+            for pic in 0..2u64 {
+                for fv in 0..3u64 {
+                    for de in 0..2u64 {
+                        for se in 0..2u64 {
+                            tapes.push(vec![ft, fl, pic, fv, de, se]);
+                        }
+                    }
+                }
+            }
+        }
+    }
+    run_enum(env, "ieee802154: frame type x flags x pan-id compression x version x addressing modes (inside the proviso)", "ieee_small", ieee_small, tapes)
+}
+
 // @@NEXT@@
 
 pub fn prop() -> Prop {
+    let mut p = prop_all();
+    // development aid: VERIF_C06_ONLY=<part> runs a single part without the phases
+    if let Ok(only) = std::env::var("VERIF_C06_ONLY") {
+        p.parts.retain(|x| x.name == only);
+        p.phases.clear();
+    }
+    p
+}
+
+fn prop_all() -> Prop {
     Prop {
         id: "C06",
         parts: vec![
-            Part { name: "ethernet", case: ethernet, quick: 5_000, thorough: 500_000 },
-            Part { name: "arp", case: arp, quick: 5_000, thorough: 500_000 },
-            Part { name: "ipv4", case: ipv4, quick: 5_000, thorough: 500_000 },
-            Part { name: "ipv6", case: ipv6, quick: 5_000, thorough: 500_000 },
-            Part { name: "ipv6_ext_hdr", case: ipv6_ext_hdr, quick: 5_000, thorough: 500_000 },
-            Part { name: "ipv6_option", case: ipv6_option, quick: 5_000, thorough: 500_000 },
-            Part { name: "ipv6_hbh", case: ipv6_hbh, quick: 5_000, thorough: 500_000 },
-            Part { name: "ipv6_frag", case: ipv6_frag, quick: 5_000, thorough: 500_000 },
-            Part { name: "ipv6_routing", case: ipv6_routing, quick: 5_000, thorough: 500_000 },
-            Part { name: "icmpv4", case: icmpv4, quick: 5_000, thorough: 500_000 },
-            Part { name: "icmpv6", case: icmpv6, quick: 5_000, thorough: 500_000 },
-            Part { name: "ndisc", case: ndisc, quick: 8_000, thorough: 800_000 },
-            Part { name: "ndisc_option", case: ndisc_option, quick: 5_000, thorough: 500_000 },
-            Part { name: "mld", case: mld, quick: 5_000, thorough: 500_000 },
-            Part { name: "mld_record", case: mld_record, quick: 3_000, thorough: 300_000 },
-            Part { name: "mld_records", case: mld_records, quick: 3_000, thorough: 300_000 },
-            Part { name: "igmp", case: igmp, quick: 5_000, thorough: 500_000 },
+            Part { name: "ethernet", case: ethernet, quick: 10_000, thorough: 1_000_000 },
+            Part { name: "arp", case: arp, quick: 10_000, thorough: 1_000_000 },
+            Part { name: "ipv4", case: ipv4, quick: 10_000, thorough: 1_000_000 },
+            Part { name: "ipv6", case: ipv6, quick: 10_000, thorough: 1_000_000 },
+            Part { name: "ipv6_ext_hdr", case: ipv6_ext_hdr, quick: 10_000, thorough: 1_000_000 },
+            Part { name: "ipv6_option", case: ipv6_option, quick: 10_000, thorough: 1_000_000 },
+            Part { name: "ipv6_hbh", case: ipv6_hbh, quick: 10_000, thorough: 1_000_000 },
+            Part { name: "ipv6_frag", case: ipv6_frag, quick: 10_000, thorough: 1_000_000 },
+            Part { name: "ipv6_routing", case: ipv6_routing, quick: 10_000, thorough: 1_000_000 },
+            Part { name: "icmpv4", case: icmpv4, quick: 10_000, thorough: 1_000_000 },
+            Part { name: "icmpv6", case: icmpv6, quick: 10_000, thorough: 1_000_000 },
+            Part { name: "ndisc", case: ndisc, quick: 10_000, thorough: 1_000_000 },
+            Part { name: "ndisc_option", case: ndisc_option, quick: 10_000, thorough: 1_000_000 },
+            Part { name: "mld", case: mld, quick: 10_000, thorough: 1_000_000 },
+            Part { name: "mld_record", case: mld_record, quick: 5_000, thorough: 500_000 },
+            Part { name: "mld_records", case: mld_records, quick: 5_000, thorough: 500_000 },
+            Part { name: "igmp", case: igmp, quick: 10_000, thorough: 1_000_000 },
             Part { name: "igmp_code", case: igmp_code, quick: 1_000, thorough: 10_000 },
-            Part { name: "udp", case: udp, quick: 5_000, thorough: 500_000 },
-            Part { name: "tcp", case: tcp, quick: 8_000, thorough: 800_000 },
+            Part { name: "udp", case: udp, quick: 10_000, thorough: 1_000_000 },
+            Part { name: "tcp", case: tcp, quick: 10_000, thorough: 1_000_000 },
             Part { name: "tcp_small", case: tcp_small, quick: 1_000, thorough: 10_000 },
-            Part { name: "tcp_option", case: tcp_option, quick: 5_000, thorough: 500_000 },
-            Part { name: "dhcpv4", case: dhcpv4, quick: 5_000, thorough: 500_000 },
-            Part { name: "dns", case: dns, quick: 5_000, thorough: 500_000 },
-            Part { name: "dns_record", case: dns_record, quick: 3_000, thorough: 300_000 },
-            // @@PARTS@@
+            Part { name: "tcp_option", case: tcp_option, quick: 10_000, thorough: 1_000_000 },
+            Part { name: "dhcpv4", case: dhcpv4, quick: 10_000, thorough: 1_000_000 },
+            Part { name: "dns", case: dns, quick: 10_000, thorough: 1_000_000 },
+            Part { name: "dns_record", case: dns_record, quick: 5_000, thorough: 500_000 },
+            Part { name: "ieee802154", case: ieee802154, quick: 10_000, thorough: 1_000_000 },
+            Part { name: "iphc", case: iphc, quick: 10_000, thorough: 1_000_000 },
+            Part { name: "ext_nhc", case: ext_nhc, quick: 5_000, thorough: 500_000 },
+            Part { name: "udp_nhc", case: udp_nhc, quick: 10_000, thorough: 1_000_000 },
+            Part { name: "sixlowpan_frag", case: sixlowpan_frag, quick: 5_000, thorough: 500_000 },
+            // replay forms of the exhaustive phases (also run with random tapes)
+            Part { name: "udp_nhc_ports", case: udp_nhc_ports, quick: 2_000, thorough: 100_000 },
+            Part { name: "ieee_small", case: ieee_small, quick: 1_000, thorough: 10_000 },
         ],
-        phases: vec![],
+        phases: vec![phase_udp_nhc_ports, phase_tcp_small, phase_igmp_codes, phase_ieee_small],
         smoltcp_panic_is_violation: true,
-        rule: "tbd",
-        assumptions: vec![],
+        rule: "one generator per wire Repr type (32 parts); every case emits a generated repr into 0x00-, 0xFF- and garbage-filled buffers of exactly the declared length (no panic, identical bytes), parses the bytes back (equal repr when inside the type's proviso), then mutates one or two bytes of the packet and, if it still parses to a repr inside the proviso, requires parse(emit(r)) == r; exhaustive sweeps cover the compressible UDP-NHC port pairs, TCP control x option presence, the 256 IGMP Max Resp Codes and the IEEE 802.15.4 flag/addressing-mode space; a case is non-trivial when the repr has at least one optional or variable-length part present (option, address option, payload/data bytes, compressed field; always for fixed-layout types with no optional part); distinct by digest of (type, emitted bytes)",
+        assumptions: vec![
+            "per-type provisos (which reprs are inside the emit contract) are taken from the smoltcp sources and written next to each generator in vcheck/src/c06.rs",
+            "payload bytes that a repr does not carry (IPv4/IPv6/Ethernet payload, extension-header data, MLD record sources, 802.15.4 payload) are written by the harness, as the in-tree callers do",
+            "DNS has no Repr::parse: a parsed query is assembled from the Packet accessors and Question::parse; dns::Record has no emitter and is only parsed from harness-encoded bytes",
+            "RPL and IPsec reprs are not compiled in (features proto-rpl / proto-ipsec are off in the harness build)",
+        ],
     }
 }
